@@ -81,6 +81,7 @@ func VerifReset() {
 	ArgumentSnapShot = make(map[FrameKey]T)
 	ClassInheritanceMap = make(map[ClassNode][]ClassNode)
 	DefinedClassTable = make(map[DefinedClass]bool)
+	sourceDefinedClassNames = make(map[string]bool)
 	BuiltinClasses = nil
 	TSignatureArticles = []TSignatureArticle{}
 	TSignatures = make(map[string]Sig)
